@@ -173,6 +173,9 @@ def run_property(prop, tier, seed, workdir, evid_path, t0, only):
                 r['unit'] = un
             all_results += res
             unit_info[un] = U.manifest()
+            # mechanical scan for unchecked assumptions: assume statements in the harness / spec text, stubs with assumed contracts
+            unit_info[un]['assume_statements_in_harness'] = len(re.findall(r'__CPROVER_assume\s*\(', getattr(m, 'HARNESS', '')))
+            unit_info[un]['assume_statements_in_spec'] = len(re.findall(r'__CPROVER_assume\s*\(', getattr(m, 'SPEC', '')))
             assumptions += getattr(m, 'ASSUMPTIONS', {}).get(prop, [])
             not_decided += getattr(m, 'NOT_DECIDED', {}).get(prop, [])
             trusted += getattr(m, 'TRUSTED', [])
@@ -293,7 +296,11 @@ def write_evidence(path, prop, tier, seed, t0, results, unit_info, assumptions, 
             'undecided': list(undecided),
             'known_findings_hit': list(known),
             'not_decided': not_decided,
-            'extraction': {un: {'files_sha256': info['files'], 'translation_pins': info['translation_pins'], 'atomic_rewrites': info['atomic_rewrites']} for un, info in unit_info.items()},
+            'extraction': {un: {'files_sha256': info['files'], 'translation_pins': info['translation_pins'], 'atomic_rewrites': info['atomic_rewrites'],
+                                'extraction_rules_fired': info.get('rules_log', [])[:200]} for un, info in unit_info.items()},
+            'unchecked_scan': {un: {'stubs_with_assumed_contract': info.get('stubs_with_assumed_contract', []),
+                                    'assume_statements_in_harness (lemma / bounded harness preconditions)': info.get('assume_statements_in_harness', 0),
+                                    'assume_statements_in_spec': info.get('assume_statements_in_spec', 0)} for un, info in unit_info.items()},
             'solver_seconds_total': round(sum(r['secs'] for r in main), 1),
             'kill_matrix': kill if kill is not None else 'thorough tier only',
         },
